@@ -1,8 +1,19 @@
-(* TreeInvFacts.v — the end-to-end theorem for the tree model: whatever the
-   schedule of batches, merger rounds and persistence rounds (append,
-   compaction at any splice point, no-op), the current snapshot of the
-   combined system "collection + store" reads as the reference tree at every
-   path of child names. *)
+(* TreeInvFacts.v — the end-to-end theorems for the tree model (collections
+   with child collections over a store), for an arbitrary merge operator:
+   whatever the schedule of batches, merger rounds and persistence rounds
+   (append, compaction at any splice point, no-op, failed), the current
+   snapshot of the combined system "collection + store" (TreeInv.cstep) reads
+   as the reference tree at every path of child names
+   (tree_snapshot_reads_reference), and the store's footer tree reads as the
+   reference tree after a prefix of the executed batches
+   (tree_store_reads_prefix, tree_drained_store_is_reference).
+   Organisation: A association lists; B induction principles for the rose
+   trees; C the local loops of Tree.v as top-level functions and their
+   specifications; D the pending stack holds live nodes only; E one level of
+   each tree operation; F the invariant NodeInv of the tree of live nodes;
+   H merger steps; I publication; J ExecuteBatch; K the invariant of the
+   combined system and its preservation; K1/K2 liveness of stacks/footers and
+   the history ghost (a <= b <= d as in Prefix.v); L the theorems. *)
 From Coq Require Import List NArith Bool Lia Arith.
 From Moss Require Import Bytes BytesFacts Segment SegmentFacts Stack StackFacts
      Collection CollectionFacts Store StoreFacts Tree TreeColl TreeFacts TreeInv.
@@ -39,10 +50,10 @@ Section AssocFacts.
   Lemma in_assoc_nodup n l a : NoDup (map fst l) -> In (n, a) l -> assoc n l = Some a.
   Proof.
     induction l as [|[n' a'] r IH]; simpl; intros Hn Hin; [destruct Hin|].
-    inversion Hn; subst. destruct Hin as [[= -> ->]|Hin].
+    inversion Hn as [|x y Hni Hnd']; subst. destruct Hin as [[= -> ->]|Hin].
     - now rewrite beqb_refl.
     - destruct (beqb n' n) eqn:E; auto.
-      apply beqb_true in E. subst. exfalso. apply H1. apply in_map_iff. exists (n, a). auto.
+      apply beqb_true in E. subst. exfalso. apply Hni. apply in_map_iff. exists (n, a). auto.
   Qed.
 
   Lemma in_names_assoc n l : In n (map fst l) -> exists a, assoc n l = Some a.
@@ -98,10 +109,10 @@ Section AssocFacts.
   Proof.
     induction l as [|[m a'] r IH]; simpl; intros H.
     - constructor; auto.
-    - inversion H; subst. destruct (beqb m n) eqn:E; simpl.
+    - inversion H as [|x y Hni Hnd']; subst. destruct (beqb m n) eqn:E; simpl.
       + apply beqb_true in E. subst. constructor; auto.
       + apply beqb_false in E. constructor; auto.
-        rewrite aset_names_in. intros [->|H1]; auto.
+        rewrite aset_names_in. intros [->|Hin]; auto.
   Qed.
 
   Lemma aremove_names_in n l x : In x (map fst (aremove n l)) -> In x (map fst l).
@@ -113,8 +124,8 @@ Section AssocFacts.
   Lemma aremove_nodup n l : NoDup (map fst l) -> NoDup (map fst (aremove n l)).
   Proof.
     induction l as [|[m a'] r IH]; simpl; intros H; auto.
-    inversion H; subst. destruct (beqb m n); simpl; auto.
-    constructor; auto. intros H1. apply aremove_names_in in H1. auto.
+    inversion H as [|x y Hni Hnd']; subst. destruct (beqb m n); simpl; auto.
+    constructor; auto. intros Hin. apply aremove_names_in in Hin. auto.
   Qed.
 End AssocFacts.
 
@@ -1720,6 +1731,211 @@ Section StepInv.
 End StepInv.
 
 (* ======================================================================= *)
+(* K1. stacks and footers all of whose children are live                    *)
+(* ======================================================================= *)
+Section FnInd.
+  Variable P : fnode -> Prop.
+  Hypothesis H : forall a i kids, (forall n c, In (n, c) kids -> P c) -> P (FN a i kids).
+  Lemma fnode_ind' : forall f, P f.
+  Proof.
+    fix IH 1. intros [a i kids]. apply H.
+    induction kids as [|[n' c'] r IHr]; intros n c Hin.
+    - destruct Hin.
+    - destruct Hin as [E|Hin].
+      + assert (E' : c' = c) by congruence. rewrite <- E'. apply IH.
+      + eapply IHr; eauto.
+  Qed.
+End FnInd.
+
+(* every child of the stack is a child of the bookkeeping node, of the same
+   incarnation, hereditarily (what snapshot() builds, and what merging and
+   refreshing keep) *)
+Inductive SLive : cnode -> sstack -> Prop :=
+| SLv m s :
+    (forall n c, assoc n (ss_kids s) = Some c -> assoc n (cn_kids m) <> None) ->
+    (forall n c cm, assoc n (ss_kids s) = Some c -> assoc n (cn_kids m) = Some cm ->
+                    ss_incar c = cn_incar cm) ->
+    (forall n c cm, assoc n (ss_kids s) = Some c -> assoc n (cn_kids m) = Some cm -> SLive cm c) ->
+    SLive m s.
+
+Inductive FLive : cnode -> fnode -> Prop :=
+| FLv m f :
+    (forall n y, assoc n (fn_kids f) = Some y -> assoc n (cn_kids m) <> None) ->
+    (forall n y cm, assoc n (fn_kids f) = Some y -> assoc n (cn_kids m) = Some cm ->
+                    fn_incar y = cn_incar cm) ->
+    (forall n y cm, assoc n (fn_kids f) = Some y -> assoc n (cn_kids m) = Some cm -> FLive cm y) ->
+    FLive m f.
+
+Definition SLiveO (m : cnode) (o : option sstack) : Prop :=
+  match o with Some s => SLive m s | None => True end.
+Definition FLiveO (m : cnode) (o : option fnode) : Prop :=
+  match o with Some f => FLive m f | None => True end.
+
+Lemma SLive_lleq m s : SLive m s -> forall s', LlEq s s' -> SLive m s'.
+Proof.
+  induction 1 as [m s H1 H2 H3 IH]. intros s' Hl.
+  inversion Hl as [s0 s0' _ _ Hn Hk]; subst.
+  assert (Hex : forall n c', assoc n (ss_kids s') = Some c' ->
+                             exists c, assoc n (ss_kids s) = Some c /\ LlEq c c').
+  { intros n c' E. destruct (assoc n (ss_kids s)) as [c|] eqn:Es.
+    - exists c. split; auto. eapply Hk; eauto.
+    - apply Hn in Es. congruence. }
+  constructor.
+  - intros n c' E. destruct (Hex n c' E) as (c & Es & _). eauto.
+  - intros n c' cm E Ea. destruct (Hex n c' E) as (c & Es & Hc).
+    inversion Hc as [c0 c0' _ Hi _ _]; subst. rewrite <- Hi. eauto.
+  - intros n c' cm E Ea. destruct (Hex n c' E) as (c & Es & Hc). eapply IH; eauto.
+Qed.
+
+Lemma kids_changed_inv f s :
+  kids_changed f s = false ->
+  forall n cf, assoc n (fn_kids f) = Some cf ->
+               exists cs, assoc n (ss_kids s) = Some cs /\ ss_incar cs = fn_incar cf /\
+                          kids_changed cf cs = false.
+Proof.
+  destruct f as [a i fkids]. cbn [kids_changed fn_kids].
+  induction fkids as [|[n' cf'] r IH]; intros H n cf; cbn [assoc]; [discriminate|].
+  destruct (assoc n' (ss_kids s)) as [cs|] eqn:Es; [|discriminate].
+  apply orb_false_iff in H. destruct H as [H Hr].
+  apply orb_false_iff in H. destruct H as [Hi Hc].
+  destruct (beqb n' n) eqn:En.
+  - apply beqb_true in En. subst n'. intros [= <-]. exists cs. repeat split; auto.
+    apply negb_false_iff in Hi. now apply N.eqb_eq in Hi.
+  - apply IH; auto.
+Qed.
+
+Lemma FLive_noop f : forall m b, SLive m b -> kids_changed f b = false -> FLive m f.
+Proof.
+  induction f as [a i kids IH] using fnode_ind'. intros m b Hs Hk.
+  inversion Hs as [m0 s0 H1 H2 H3]; subst.
+  pose proof (kids_changed_inv _ _ Hk) as Hinv. cbn [fn_kids] in *.
+  constructor; cbn [fn_kids].
+  - intros n y E. destruct (Hinv n y E) as (cs & Es & _). eauto.
+  - intros n y cm E Ea. destruct (Hinv n y E) as (cs & Es & Hi & _). rewrite <- Hi. eauto.
+  - intros n y cm E Ea. destruct (Hinv n y E) as (cs & Es & Hi & Hc).
+    apply assoc_some_in in E. eapply IH; eauto.
+Qed.
+
+Section LiveFacts.
+  Variable fm : bytes -> value -> bytes -> value.
+
+  Lemma SLive_merge m s : SLive m s -> forall t base, SLive m (merge_node fm t s base).
+  Proof.
+    induction 1 as [m s H1 H2 H3 IH]. intros t base.
+    assert (Hex : forall n c', assoc n (ss_kids (merge_node fm t s base)) = Some c' ->
+                   exists c t' b', assoc n (ss_kids s) = Some c /\ c' = merge_node fm t' c b').
+    { intros n c' E. rewrite merge_node_kid in E.
+      destruct (assoc n (ss_kids s)) as [c|]; [|discriminate]. injection E as <-. eauto. }
+    constructor.
+    - intros n c' E. destruct (Hex n c' E) as (c & t' & b' & Es & ->). eauto.
+    - intros n c' cm E Ea. destruct (Hex n c' E) as (c & t' & b' & Es & ->).
+      rewrite merge_node_incar. eauto.
+    - intros n c' cm E Ea. destruct (Hex n c' E) as (c & t' & b' & Es & ->). eapply IH; eauto.
+  Qed.
+
+  Lemma FLive_append m b : SLive m b -> forall L, FLive m (append_footer L b).
+  Proof.
+    induction 1 as [m s H1 H2 H3 IH]. intros L.
+    assert (Hex : forall n y, assoc n (fn_kids (append_footer L s)) = Some y ->
+                   exists c L', assoc n (ss_kids s) = Some c /\ y = append_footer L' c).
+    { intros n y E. rewrite append_footer_kid in E.
+      destruct (assoc n (ss_kids s)) as [c|]; [|discriminate]. injection E as <-. eauto. }
+    constructor.
+    - intros n y E. destruct (Hex n y E) as (c & L' & Es & ->). eauto.
+    - intros n y cm E Ea. destruct (Hex n y E) as (c & L' & Es & ->).
+      rewrite append_footer_incar. eauto.
+    - intros n y cm E Ea. destruct (Hex n y E) as (c & L' & Es & ->). eapply IH; eauto.
+  Qed.
+
+  Lemma FLive_compact m b : SLive m b -> forall sp incl L, FLive m (compact_node fm sp incl L b).
+  Proof.
+    induction 1 as [m s H1 H2 H3 IH]. intros sp incl L.
+    assert (Hex : forall n y, assoc n (fn_kids (compact_node fm sp incl L s)) = Some y ->
+                   exists c L', assoc n (ss_kids s) = Some c /\ y = compact_node fm 0 incl L' c).
+    { intros n y E. rewrite compact_node_kid in E.
+      destruct (assoc n (ss_kids s)) as [c|]; [|discriminate]. injection E as <-. eauto. }
+    constructor.
+    - intros n y E. destruct (Hex n y E) as (c & L' & Es & ->). eauto.
+    - intros n y cm E Ea. destruct (Hex n y E) as (c & L' & Es & ->).
+      rewrite compact_node_incar. eauto.
+    - intros n y cm E Ea. destruct (Hex n y E) as (c & L' & Es & ->). eapply IH; eauto.
+  Qed.
+
+  Lemma FLive_persist m b f ch f' :
+    SLive m b -> tree_persist fm ch b f = Some f' -> FLive m f'.
+  Proof.
+    intros Hs Etp. destruct ch as [| |sp]; cbn [tree_persist] in Etp.
+    - destruct (nothing_to_persist b f) eqn:En; [|discriminate]. injection Etp as <-.
+      unfold nothing_to_persist in En. apply andb_true_iff in En. destruct En as [_ En].
+      apply negb_true_iff in En. eapply FLive_noop; eauto.
+    - destruct (nothing_to_persist b f); [discriminate|]. injection Etp as <-.
+      now apply FLive_append.
+    - destruct (Nat.leb sp (length (fn_segs f))); [|discriminate].
+      destruct (ss_is_empty b && Nat.leb (length (fn_segs f)) 1); [discriminate|].
+      injection Etp as <-. now apply FLive_compact.
+  Qed.
+
+  Lemma SLive_assemble lr w cap m T M B C L r :
+    NodeInv fm lr w cap m T M B C L r ->
+    forall os L' lr', SLive m (assemble m (osecs os) L' lr').
+  Proof.
+    induction 1 as [w cap m T M B C L r HL Hk IH]. intros os L' lr'.
+    pose proof (nl_nodup _ _ _ _ _ _ _ _ _ _ _ HL) as Hnd.
+    pose proof (nl_names _ _ _ _ _ _ _ _ _ _ _ HL) as Hnm.
+    assert (Hex : forall n c, assoc n (ss_kids (assemble m (osecs os) L' lr')) = Some c ->
+                   exists cm os' L'', assoc n (cn_kids m) = Some cm /\
+                                      c = assemble cm (osecs os') L'' lr').
+    { intros n c E. rewrite assemble_kid in E by auto.
+      destruct (assoc n (cn_kids m)) as [cm|]; [|discriminate].
+      destruct (lr' || _); [|discriminate]. injection E as <-. eauto. }
+    constructor.
+    - intros n c E. destruct (Hex n c E) as (cm & os' & L'' & Ea & ->). congruence.
+    - intros n c cm E Ea. destruct (Hex n c E) as (cm' & os' & L'' & Ea' & ->).
+      rewrite assemble_incar. congruence.
+    - intros n c cm E Ea. destruct (Hex n c E) as (cm' & os' & L'' & Ea' & ->).
+      assert (cm' = cm) by congruence. subst cm'.
+      destruct (assoc n (rt_kids r)) as [cr|] eqn:Er; [|apply Hnm in Er; congruence].
+      eapply IH; eauto.
+  Qed.
+
+  (* a node without anything in memory or beneath it reads nothing *)
+  Lemma all_none_empty lr w cap m T M B C L r :
+    NodeInv fm lr w cap m T M B C L r -> T = None -> M = None -> B = None -> L = None ->
+    rt_empty fm r.
+  Proof.
+    induction 1 as [w cap m T M B C L r HL Hk IH]. intros -> -> -> ->.
+    constructor.
+    - intros k. rewrite <- (nl_view _ _ _ _ _ _ _ _ _ _ _ HL k). reflexivity.
+    - intros n cr Er.
+      destruct (assoc n (cn_kids m)) as [cm|] eqn:Ea;
+        [|apply (nl_names _ _ _ _ _ _ _ _ _ _ _ HL) in Ea; congruence].
+      eapply IH; eauto.
+  Qed.
+
+  (* with nothing in memory a live footer reads, on its own, as the reference *)
+  Lemma footer_alone lr w cap m T M B C L r :
+    NodeInv fm lr w cap m T M B C L r -> T = None -> M = None -> B = None ->
+    forall f, L = Some f -> FLive m f -> fn_reads_mod fm f r.
+  Proof.
+    induction 1 as [w cap m T M B C L r HL Hk IH]. intros -> -> -> f -> Hf.
+    inversion Hf as [m0 f0 F1 F2 F3]; subst.
+    pose proof (nl_names _ _ _ _ _ _ _ _ _ _ _ HL) as Hnm.
+    constructor.
+    - intros k. rewrite <- (nl_view _ _ _ _ _ _ _ _ _ _ _ HL k). reflexivity.
+    - intros n cf E Er. apply Hnm in Er. eapply F1; eauto.
+    - intros n cf cr E Er.
+      destruct (assoc n (cn_kids m)) as [cm|] eqn:Ea; [|apply Hnm in Ea; congruence].
+      apply (IH n cm cr Ea Er); auto.
+      + cbn [fsel]. rewrite E, (F2 n cf cm E Ea), N.eqb_refl. reflexivity.
+      + eapply F3; eauto.
+    - intros n cr E Er.
+      destruct (assoc n (cn_kids m)) as [cm|] eqn:Ea; [|apply Hnm in Ea; congruence].
+      apply (all_none_empty _ _ _ _ _ _ _ _ _ _ (Hk n cm cr Ea Er)); auto.
+      cbn [fsel]. now rewrite E.
+  Qed.
+End LiveFacts.
+
+(* ======================================================================= *)
 (* K2. how much of the batch history has reached which section              *)
 (* ======================================================================= *)
 Section Ghost.
@@ -1741,7 +1957,13 @@ Section Ghost.
       NodeInv (has_ll c) false None cb None None (t_base (c_t cs)) None (t_ll (c_t cs))
               (ref_tree (firstn b bs)) /\
       NodeInv (has_ll c) false (cap_of (t_merger (c_t cs))) cd None (t_mid (c_t cs))
-              (t_base (c_t cs)) None (t_ll (c_t cs)) (ref_tree (firstn d bs)).
+              (t_base (c_t cs)) None (t_ll (c_t cs)) (ref_tree (firstn d bs)) /\
+      FLiveO ca (t_ll (c_t cs)) /\ SLiveO cb (t_base (c_t cs)) /\ SLiveO cd (t_mid (c_t cs)) /\
+      (t_top (c_t cs) = None -> d = length bs) /\
+      (t_mid (c_t cs) = None -> b = d) /\
+      (t_base (c_t cs) = None -> a = b).
+
+  Ltac splits := repeat match goal with |- _ /\ _ => split end.
 
   Lemma firstn_app_le' {A} n (l1 l2 : list A) : n <= length l1 -> firstn n (l1 ++ l2) = firstn n l1.
   Proof.
@@ -1754,16 +1976,18 @@ Section Ghost.
     pose proof (si_node _ _ _ _ (sinv_init fm c)) as H. cbn in H.
     apply (weaken_inv fm) in H.
     exists 0, 0, 0, (CN 0 0 []), (CN 0 0 []), (CN 0 0 []). cbn.
-    split; [auto|]. split; [auto|]. split; [auto|]. auto.
+    splits; auto.
+    destruct (has_ll c); cbn; auto. constructor; cbn; intros; discriminate.
   Qed.
 
   Lemma ginv_same c bs cs cs' :
+    t_top (c_t cs') = t_top (c_t cs) ->
     t_mid (c_t cs') = t_mid (c_t cs) -> t_base (c_t cs') = t_base (c_t cs) ->
     t_ll (c_t cs') = t_ll (c_t cs) -> cap_of (t_merger (c_t cs')) = cap_of (t_merger (c_t cs)) ->
     GInv c bs cs -> GInv c bs cs'.
   Proof.
-    intros E1 E2 E3 E4 (a & b & d & ca & cb & cd & H).
-    exists a, b, d, ca, cb, cd. rewrite E1, E2, E3, E4. exact H.
+    intros E0 E1 E2 E3 E4 (a & b & d & ca & cb & cd & H).
+    exists a, b, d, ca, cb, cd. rewrite E0, E1, E2, E3, E4. exact H.
   Qed.
 
   Theorem cstep_ginv c bs cs l cs' :
@@ -1777,32 +2001,34 @@ Section Ghost.
       destruct (tb_ok b && tb_nonempty b); [|discriminate].
       destruct (build_top (t_coll (c_t cs)) b (t_top (c_t cs))) as [coll' top'].
       injection Hs as <-.
-      destruct HG as (a & b0 & d & ca & cb & cd & H1 & H2 & H3 & HA & HB & HD).
+      destruct HG as (a & b0 & d & ca & cb & cd & H1 & H2 & H3 & HA & HB & HD & LA & LB & LD & ET & EM & EB).
       exists a, b0, d, ca, cb, cd. cbn.
       rewrite !firstn_app_le' by lia. rewrite app_length. cbn.
-      split; [auto|]. split; [auto|]. split; [lia|]. auto.
+      splits; auto; try lia. discriminate.
     - (* ingest *)
       unfold clift, tstep in Hs. rewrite Ho in Hs.
       destruct (t_merger (c_t cs)) eqn:Em; try discriminate.
       injection Hs as <-.
-      destruct HG as (a & b0 & d & ca & cb & cd & H1 & H2 & H3 & HA & HB & HD).
+      destruct HG as (a & b0 & d & ca & cb & cd & H1 & H2 & H3 & HA & HB & HD & LA & LB & LD & ET & EM & EB).
       exists a, b0, (length bs), ca, cb, (t_coll (c_t cs)). cbn.
-      split; [auto|]. split; [lia|]. split; [lia|]. split; [auto|]. split; [auto|].
-      rewrite firstn_all. unfold t_assemble. rewrite Hll.
-      eapply (weaken_inv fm).
-      apply (ingest_inv fm _ _ _ _ _ _ _ _ _ _ Hn eq_refl). left. reflexivity.
+      splits; auto; try lia; try discriminate.
+      + rewrite firstn_all. unfold t_assemble. rewrite Hll.
+        eapply (weaken_inv fm).
+        apply (ingest_inv fm _ _ _ _ _ _ _ _ _ _ Hn eq_refl). left. reflexivity.
+      + unfold t_assemble. apply (SLive_assemble fm _ _ _ _ _ _ _ _ _ _ Hn [t_top (c_t cs); t_mid (c_t cs)]).
     - (* swap *)
       unfold clift, tstep in Hs. rewrite Ho in Hs.
       destruct (t_merger (c_t cs)) as [|mb|] eqn:Em; try discriminate.
       destruct (t_mid (c_t cs)) as [ms|] eqn:Emid; try discriminate.
       injection Hs as <-.
-      destruct HG as (a & b0 & d & ca & cb & cd & H1 & H2 & H3 & HA & HB & HD).
+      destruct HG as (a & b0 & d & ca & cb & cd & H1 & H2 & H3 & HA & HB & HD & LA & LB & LD & ET & EM & EB).
       exists a, b0, d, ca, cb, cd. cbn.
-      split; [auto|]. split; [auto|]. split; [auto|]. split; [auto|]. split; [auto|].
-      rewrite Em, Emid in HD. cbn [cap_of] in HD.
-      destruct (ss_is_empty ms); [apply (drop_cap fm _ _ _ _ _ _ _ _ _ _ HD)|].
-      apply (swap_inv fm _ _ _ _ _ _ _ _ _ _ HD mb); [reflexivity|]. right.
-      exists ms, t. auto.
+      rewrite Em, Emid in HD. cbn [cap_of] in HD. rewrite Emid in LD. cbn [SLiveO] in LD.
+      splits; auto; try discriminate.
+      + destruct (ss_is_empty ms); [apply (drop_cap fm _ _ _ _ _ _ _ _ _ _ HD)|].
+        apply (swap_inv fm _ _ _ _ _ _ _ _ _ _ HD mb); [reflexivity|]. right.
+        exists ms, t. auto.
+      + destruct (ss_is_empty ms); auto. now apply SLive_merge.
     - (* hand-over *)
       unfold clift, tstep in Hs. rewrite Ho in Hs.
       destruct (t_merger (c_t cs)) as [|mb|] eqn:Em; try discriminate.
@@ -1814,14 +2040,15 @@ Section Ghost.
       2:{ injection Hs as <-. apply (ginv_same c bs cs); cbn; rewrite ?Em; auto. }
       injection Hs as <-.
       destruct (t_ll (c_t cs)) as [f|] eqn:Ell; [|discriminate].
-      destruct HG as (a & b0 & d & ca & cb & cd & H1 & H2 & H3 & HA & HB & HD).
-      rewrite Emid, Eb, Em, Ell, Ec in *. cbn [cap_of] in HD.
+      destruct HG as (a & b0 & d & ca & cb & cd & H1 & H2 & H3 & HA & HB & HD & LA & LB & LD & ET & EM & EB).
+      rewrite Emid, Eb, Em, Ell, Ec in *. cbn [cap_of] in HD. cbn [SLiveO] in LD.
       assert (HD' : NodeInv true false None cd None None
                             (Some (refresh_llcap (t_coll (c_t cs)) ms (Some f))) None
                             (Some f) (ref_tree (firstn d bs))).
       { apply (handover_inv fm _ _ _ _ _ _ _ _ _ HD eq_refl eq_refl). cbn. apply refresh_lleq. }
       exists a, d, d, ca, cd, cd. cbn. rewrite ?Ec, ?Ell.
-      split; [lia|]. split; [lia|]. split; [lia|]. auto.
+      splits; auto; try lia; try discriminate.
+      apply (SLive_lleq _ _ LD). apply refresh_lleq.
     - (* pbegin *)
       unfold tstep in Hs. rewrite Ho in Hs.
       destruct (t_persister (c_t cs)) eqn:Ep; try discriminate.
@@ -1844,13 +2071,13 @@ Section Ghost.
       injection Hs as <-.
       destruct Hp as (b0 & f & ch & E1 & Ell & Etp & E2).
       injection E1 as <-. assert (f' = c_store cs) by congruence. subst f'.
-      destruct HG as (a & b1 & d & ca & cb & cd & H1 & H2 & H3 & HA & HB & HD).
-      rewrite Ell, Eb in *.
+      destruct HG as (a & b1 & d & ca & cb & cd & H1 & H2 & H3 & HA & HB & HD & LA & LB & LD & ET & EM & EB).
+      rewrite Ell, Eb in *. cbn [SLiveO] in LB.
       pose proof (persist_inv fm _ _ _ _ _ _ _ _ _ _ _ _ false HB Etp) as HB'.
       pose proof (persist_inv fm _ _ _ _ _ _ _ _ _ _ _ _ false HD Etp) as HD'.
       exists b1, b1, d, cb, cb, cd. cbn.
-      split; [lia|]. split; [lia|]. split; [lia|].
-      split; [apply HB'; discriminate|]. split; [apply HB'; discriminate|]. apply HD'; discriminate.
+      splits; auto; try lia; try (apply HB'; discriminate); try (apply HD'; discriminate).
+      eapply FLive_persist; eauto.
     - (* snapshot *)
       unfold clift, tstep in Hs. rewrite Ho in Hs. injection Hs as <-.
       apply (ginv_same c bs cs); cbn; auto.
@@ -1977,19 +2204,65 @@ Section EndToEnd.
     - apply (crun_ginv fm c ls [] (cinit c) cs (sinv_init fm c) (ginv_init fm c) Hg Hr).
   Qed.
 
-  (* (3), PARTIAL — the store holds a prefix of the history: a collection that
-     has nothing in memory and whose lower level is the store's current footer
-     reads as the reference tree after the first a batches.  The footer is
-     read THROUGH collection bookkeeping ca (names and incarnation numbers, as
-     the collection had them when the persisted section was cut off): a child
-     footer counts only when ca has a child of that name and incarnation.
-     What is missing for the statement about the footer on its own
-     (fn_reads_as): that every child footer is of ca's incarnation and that
-     ca has no child the footer lacks.  The latter is FALSE in general — a
-     persistence round may be a no-op although empty child collections were
-     created (known finding F10b) — so the footer alone reads as the reference
-     only up to the existence of empty child collections. *)
-  Theorem tree_store_reads_prefix_partial c ls cs :
+  (* (3) The store holds a prefix of the history: at every moment its current
+     footer tree — read on its own, without any collection — reads as the
+     reference tree after the first a batches, for some a (fn_reads_mod): at
+     the root and in every child footer every key reads the reference's value,
+     every child footer belongs to a child collection of the reference, and a
+     child collection of the reference that has no footer holds no key at any
+     depth.  The last clause cannot be strengthened to "has a footer": a
+     persistence round is a no-op when the handed-down stack holds no
+     operation, also when it carries newly created, empty child collections
+     (known finding F10b). *)
+  Theorem tree_store_reads_prefix c ls cs :
+    has_ll c = true ->
+    Forall (fun b => tb_good b = true) (cbatches ls) ->
+    crun fm c (cinit c) ls = Some cs ->
+    exists a, a <= length (cbatches ls) /\
+              fn_reads_mod fm (c_store cs) (ref_tree (firstn a (cbatches ls))).
+  Proof.
+    intros Hlc Hg Hr. destruct (crun_both c ls cs Hg Hr) as [HI HG].
+    destruct HG as (a & b & d & ca & cb & cd & H1 & H2 & H3 & HA & HB & HD & LA & LB & LD & _).
+    pose proof (si_pers _ _ _ _ HI) as Hp. rewrite Hlc in *.
+    destruct (t_persister (c_t cs)).
+    - exists a. split; [lia|]. rewrite (Hp eq_refl) in HA, LA.
+      apply (footer_alone fm _ _ _ _ _ _ _ _ _ _ HA eq_refl eq_refl eq_refl _ eq_refl LA).
+    - destruct Hp as (b0 & f & ch & Eb & Ell & Etp & _). rewrite Eb, Ell in HB. rewrite Eb in LB.
+      pose proof (persist_inv fm _ _ _ _ _ _ _ _ _ _ _ _ false HB Etp ltac:(discriminate)) as HB'.
+      exists b. split; [lia|].
+      apply (footer_alone fm _ _ _ _ _ _ _ _ _ _ HB' eq_refl eq_refl eq_refl _ eq_refl).
+      eapply FLive_persist; eauto.
+  Qed.
+
+  (* ... and once everything has been handed down and persisted (no pending
+     stack, no merger stack, no stack awaiting persistence, no persistence
+     round running) the footer reads as the WHOLE reference tree. *)
+  Theorem tree_drained_store_is_reference c ls cs :
+    has_ll c = true ->
+    Forall (fun b => tb_good b = true) (cbatches ls) ->
+    crun fm c (cinit c) ls = Some cs ->
+    t_persister (c_t cs) = PIdle ->
+    t_top (c_t cs) = None -> t_mid (c_t cs) = None -> t_base (c_t cs) = None ->
+    fn_reads_mod fm (c_store cs) (ref_tree (cbatches ls)).
+  Proof.
+    intros Hlc Hg Hr Hid ET EM EB. destruct (crun_both c ls cs Hg Hr) as [HI HG].
+    destruct HG as (a & b & d & ca & cb & cd & H1 & H2 & H3 & HA & HB & HD & LA & LB & LD
+                    & FT & FM & FB).
+    pose proof (si_pers _ _ _ _ HI) as Hp. rewrite Hid, Hlc in Hp.
+    assert (a = length (cbatches ls)) by (rewrite (FB EB), (FM EM); auto). subst a.
+    rewrite firstn_all in HA. rewrite (Hp eq_refl) in HA, LA.
+    apply (footer_alone fm _ _ _ _ _ _ _ _ _ _ HA eq_refl eq_refl eq_refl _ eq_refl LA).
+  Qed.
+
+  (* The same two facts with the footer read THROUGH collection bookkeeping (a
+     child footer counts only for a child collection of that name AND
+     incarnation): here the child names agree exactly.  The second one holds
+     under the weaker premise that the three dirty sections hold no operation
+     (zero dirty gauges) — PARTIAL with respect to (3): for the footer on its
+     own this weaker premise is not enough, because a batch that only deletes
+     a child collection leaves every section without operations while the
+     child's footer is still in the store (known finding F10b). *)
+  Theorem tree_store_reads_prefix_through_collection c ls cs :
     has_ll c = true ->
     Forall (fun b => tb_good b = true) (cbatches ls) ->
     crun fm c (cinit c) ls = Some cs ->
@@ -1998,7 +2271,7 @@ Section EndToEnd.
                           (ref_tree (firstn a (cbatches ls))).
   Proof.
     intros Hlc Hg Hr. destruct (crun_both c ls cs Hg Hr) as [HI HG].
-    destruct HG as (a & b & d & ca & cb & cd & H1 & H2 & H3 & HA & HB & HD).
+    destruct HG as (a & b & d & ca & cb & cd & H1 & H2 & H3 & HA & HB & HD & _).
     pose proof (si_pers _ _ _ _ HI) as Hp. rewrite Hlc in *.
     destruct (t_persister (c_t cs)).
     - exists a, ca. split; [lia|]. rewrite (Hp eq_refl) in HA.
@@ -2009,10 +2282,7 @@ Section EndToEnd.
       apply (assemble_reads_as fm _ _ _ _ _ _ _ _ _ _ (HB' ltac:(discriminate))).
   Qed.
 
-  (* (3), second half, PARTIAL in the same sense: when nothing is dirty and no
-     persistence round is running, the store's footer — read through the
-     collection's current bookkeeping — reads as the whole reference tree *)
-  Theorem tree_drained_store_is_reference_partial c ls cs :
+  Theorem tree_zero_gauges_store_is_reference_partial c ls cs :
     has_ll c = true ->
     Forall (fun b => tb_good b = true) (cbatches ls) ->
     crun fm c (cinit c) ls = Some cs ->
@@ -2024,6 +2294,36 @@ Section EndToEnd.
     pose proof (si_pers _ _ _ _ HI) as Hp. rewrite Hid in Hp.
     pose proof (si_node _ _ _ _ HI) as HN. rewrite Hlc, (Hp Hlc) in HN.
     apply (assemble_reads_as fm _ _ _ _ _ _ _ _ _ _ (drain_inv fm _ _ _ _ _ _ _ _ _ _ HN eq_refl HT HM HB)).
+  Qed.
+
+  (* the prefix invariant a <= b <= d of Prefix.v, for trees: read through the
+     bookkeeping of the moment each section was cut off, the lower level holds
+     the first a batches, base over it the first b, mid over base over it the
+     first d (and top over all of it everything: tree_snapshot_reads_reference) *)
+  Theorem tree_sections_hold_prefixes c ls cs :
+    Forall (fun b => tb_good b = true) (cbatches ls) ->
+    crun fm c (cinit c) ls = Some cs ->
+    exists a b d ca cb cd,
+      a <= b /\ b <= d /\ d <= length (cbatches ls) /\
+      reads_as fm (assemble ca (osecs [None; None; None; None]) (t_ll (c_t cs)) (has_ll c))
+               (ref_tree (firstn a (cbatches ls))) /\
+      reads_as fm (assemble cb (osecs [None; None; t_base (c_t cs); None]) (t_ll (c_t cs)) (has_ll c))
+               (ref_tree (firstn b (cbatches ls))) /\
+      reads_as fm (assemble cd (osecs [None; t_mid (c_t cs); t_base (c_t cs); None])
+                            (t_ll (c_t cs)) (has_ll c))
+               (ref_tree (firstn d (cbatches ls))) /\
+      (t_top (c_t cs) = None -> d = length (cbatches ls)) /\
+      (t_mid (c_t cs) = None -> b = d) /\
+      (t_base (c_t cs) = None -> a = b).
+  Proof.
+    intros Hg Hr. destruct (crun_both c ls cs Hg Hr) as [HI HG].
+    destruct HG as (a & b & d & ca & cb & cd & H1 & H2 & H3 & HA & HB & HD & LA & LB & LD
+                    & FT & FM & FB).
+    exists a, b, d, ca, cb, cd.
+    split; [auto|]. split; [auto|]. split; [auto|].
+    split; [apply (assemble_reads_as fm _ _ _ _ _ _ _ _ _ _ HA)|].
+    split; [apply (assemble_reads_as fm _ _ _ _ _ _ _ _ _ _ HB)|].
+    split; [apply (assemble_reads_as fm _ _ _ _ _ _ _ _ _ _ HD)|]. auto.
   Qed.
 End EndToEnd.
 
@@ -2081,6 +2381,9 @@ Proof. vm_compute. reflexivity. Qed.
 
 Print Assumptions tree_snapshot_reads_reference.
 Print Assumptions tree_snapshot_reads_reference_at_every_path.
-Print Assumptions tree_store_reads_prefix_partial.
-Print Assumptions tree_drained_store_is_reference_partial.
+Print Assumptions tree_store_reads_prefix.
+Print Assumptions tree_drained_store_is_reference.
+Print Assumptions tree_store_reads_prefix_through_collection.
+Print Assumptions tree_sections_hold_prefixes.
+Print Assumptions tree_zero_gauges_store_is_reference_partial.
 Print Assumptions tree_theorem_refuted_pre_fix.
